@@ -1,9 +1,10 @@
 """C12 - defaults, user-defined status and reset behave as a consistent state machine.
 Decided on spec/ConfigMachine.tla: C12_Fresh, C12_Marks, C12_Reset."""
-from . import cfgmachine
+from . import cfgfamily, cfgmachine
 
 
 def run(tier, seed):
     out = cfgmachine.run_machine("C12", ["C12_Fresh"], ["C12_Marks", "C12_Reset"], tier, seed)
     # second instance: the textual / numeric field classes inside a configuration
-    return cfgmachine.merge(out, cfgmachine.run_machine("C12", ["C12_Fresh"], ["C12_Marks", "C12_Reset"], tier, seed + 7, schema="SchemaB"))
+    out = cfgmachine.merge(out, cfgmachine.run_machine("C12", ["C12_Fresh"], ["C12_Marks", "C12_Reset"], tier, seed + 7, schema="SchemaB"))
+    return cfgmachine.merge(out, cfgfamily.run_family("C12", ["C12_Fresh"], ["C12_Marks", "C12_Reset"], tier, seed))
